@@ -233,6 +233,16 @@ def run_ens2prob(desc, ctx):
         inp = gen.make_input(rng, "in", "nc", times, leads, locs, members=M, miss=rng.choice([0.0, 0.1, 0.2]), vrange=(0, 12),
                              integerish=rng.random() < 0.5)
         fmt = rng.choice(["nc", "text"])
+        if fmt == "text" and rng.random() < 0.5:
+            # one-decimal values that single precision cannot hold exactly, observations tying with members: the text file's
+            # numbers are doubles, and "member < obs" is decided on them
+            DEC = [0.1, 0.7, 1.3, 2.1, 3.3, 4.9, 8.3, 9.7]
+            ctx.count("ens2prob_decimal_inputs")
+            for c_ in inp["cells"].values():
+                if c_.get("e"):
+                    c_["e"] = [None if v is None else rng.choice(DEC) for v in c_["e"]]
+                if c_.get("obs") is not None:
+                    c_["obs"] = rng.choice(DEC)
         inp = dict(inp, fmt=fmt, name="in." + ("nc" if fmt == "nc" else "txt"), style={})
         d = os.path.join(ctx.workdir, "e%d" % ci)
         os.makedirs(d)
